@@ -172,6 +172,14 @@ def check_projects(report: Report, tier: str) -> dict:
             for port in ports:
                 for libs in lib_lists:
                     one(board, port, libs, sources[0]) if (tier == "thorough" or port in ports[:3] or libs is None) else None
+        # library entries that share a prefix / differ only in a version pin, scope or URL: all lists of length <= 3
+        rich_alpha = ["Servo", "Servo@^1.2.1", "Servo@1.0.0", "servo", "@scope/pkg", "@other/pkg", "owner/Servo", "Lib=https://example.org/lib.git", "https://example.org/lib.git#v1", ""]
+        for k in range(0, 4 if tier == "thorough" else 3):
+            for libs in itertools.product(rich_alpha, repeat=k):
+                one("uno", "COM3", list(libs), sources[0])
+        if tier != "thorough":
+            for libs in itertools.product(rich_alpha[:6], repeat=3):
+                one("uno", "COM3", list(libs), sources[0])
         # histories: regenerate into the SAME project directory (same length / shorter / longer / identical sources)
         variants = ["pinMode(12, OUTPUT); delay(500);\n", "pinMode(13, OUTPUT); delay(250);\n", "pinMode(13, OUTPUT); delay(25);\n", "é" * 10 + "\n", "è" * 10 + "\n", "ab" * 10 + "\n", ""]
         for first, second in itertools.product(variants, repeat=2):
